@@ -1,8 +1,8 @@
-\* C19 negative config: naive repair (never close): TLC must reject NoLeak.
+\* C19 negative config: a delivery gives up while its client is still connected: TLC must reject DeliveredAtQuiescence (and, run with PROPERTIES only, Delivered).
 CONSTANTS
   Clients = {"c1", "c2"}
   NB = 2
-  Design = "noclose"
+  Design = "timeoutdrop"
   MaxPings = 1
   PingFirst = FALSE
   NoRaces = FALSE
